@@ -37,7 +37,7 @@ def norm_kind(k: list, classes: dict[str, dict], declared: set[str], depth: int 
         parts = sorted({norm_kind(p, classes, declared, depth + 1) for p in k[1]})
         return "union:" + "|".join(parts)
     if h == "ref":
-        name = k[1]
+        name = ALIAS.get(k[1], k[1])
         if name in declared:
             return "ref:" + name
         c = classes.get(name)
@@ -56,6 +56,7 @@ def norm_kind(k: list, classes: dict[str, dict], declared: set[str], depth: int 
 
 
 CAUSES: dict[str, dict] = {}
+ALIAS: dict[str, str] = {}  # class name -> declared schema name, for documents whose schemas carry content markers (doc["markers"])
 
 
 def doc_key(d: dict) -> str:
@@ -102,7 +103,8 @@ def observe_ir(chk: Check, docs: list[dict], label: str) -> list[dict]:
         causes = tracker_causes(r.get("ev") or [])
         CAUSES[doc_key(d)] = causes
         for n in d["order"]:
-            hits = [(k, s) for k, s in r["ir"].items() if k == n or s["name"] == n]
+            # the registry is keyed by declared name; the (sanitised) IR name identifies a schema only when no key does
+            hits = [(k, s) for k, s in r["ir"].items() if k == n] or [(k, s) for k, s in r["ir"].items() if s["name"] == n]
             count = len(hits)
             fields: list = []
             if hits:
@@ -146,13 +148,27 @@ def observe_import(chk: Check, docs: list[dict], label: str) -> list[dict]:
         models: dict[str, Any] = {}
         info: dict[str, Any] = {}
         skip: set[str] = set()
+        ALIAS.clear()
+        marked: dict[str, list] = {}
+        if d.get("markers"):
+            # schemas are recognised by their marker property, not by the name the generator derived for the class
+            for c0 in o["models"]["classes"]:
+                for f in c0.get("fields", []) if c0.get("kind") == "dataclass" else []:
+                    if f["wire"].startswith(concretise.MARK):
+                        marked.setdefault(f["wire"][len(concretise.MARK):], []).append(c0)
+            for n0, cs in marked.items():
+                for c0 in cs:
+                    ALIAS[c0["cls"]] = n0
         for n in d["order"]:
             c = classes.get(n)
+            if d.get("markers"):
+                c = (marked.get(n) or [None])[0]
+                counts[n] = len(marked.get(n) or [])
             fields = []
             if c and c.get("kind") == "dataclass":
                 # a document that names its property keys (doc["keys"]) is judged in the p<i> vocabulary of Docs.tla
                 inv = {v: f"p{k}" for k, v in (d.get("keys") or {}).items()}
-                fields = [[inv.get(f["wire"], f["wire"]), bool(f["required"]), norm_kind(f["kind"], classes, declared)] for f in c["fields"]]
+                fields = [[inv.get(f["wire"], f["wire"]), bool(f["required"]), norm_kind(f["kind"], classes, declared)] for f in c["fields"] if not f["wire"].startswith(concretise.MARK)]
                 doc0 = c.get("doc", "")
                 info[n] = {"circ": doc0.startswith("[Circular reference"), "depthph": doc0.startswith("[Maximum recursion"), "unres": False, "selfstub": doc0.startswith("[Self-referencing"), "path": doc0}
             cz = CAUSES.get(doc_key(d), {"stored": {}, "cut": []})
@@ -228,6 +244,14 @@ def judge(chk: Check, traces: list[dict], label: str) -> None:
                     "all_fields": bool(lost_all),
                     "stored": "+".join(info.get("stored_why", [])),
                 }
+                if scen.get("markers"):
+                    # colliding declared names: which of the pair is declared first - the one that is a fixed point of class-name derivation or the other
+                    from . import schemanode
+                    reach: list[str] = []
+                    for x in scen["order"]:
+                        reach += [e["to"] for e in scen["edges"] if e["from"] == "H"] if x == "H" else [x]
+                    loc["names"] = "collide"
+                    loc["first"] = "stable" if schemanode.san_class(reach[0]) == reach[0] else "changed"   # first of the pair the parser reaches
                 if clause == "C02.schema_missing":
                     loc["renamed"] = any(re.fullmatch(re.escape(n) + r"_?\d+", c) for c in t.get("_classes", []))
                 if clause == "C02.inherited_lost":
@@ -289,6 +313,12 @@ def run(chk: Check) -> None:
     # the implementation-shaped model on the same family: SchemaParse!AnswersOwnNode (a parse call is never answered with the real
     # entry built from another node) is what the design breaks here; the model's prediction is compared with the real parser
     spconf.conformance(chk, cdocs, "collide")
+    # two declared names that derive the SAME class name (FooBar / Foo_Bar) and a holder H that refers to them: each must keep a model of
+    # its own and every reference must point at the right one; models are recognised by a marker property, never by the derived name
+    docs = gen_graphs(chk, ["FooBar", "Foo_Bar", "H"], ["ref", "arr", "map", "inline"] if not thorough else ["ref", "arr", "map", "inline", "arrInline", "oneOf"], 2, req=(False,))
+    hdocs = [dict(d, markers=True) for d in docs if d["edges"] and all(e["from"] == "H" for e in d["edges"]) and {e["to"] for e in d["edges"]} <= {"FooBar", "Foo_Bar"}]
+    chk.require(len(hdocs) >= 60, "colliding-schema-name family too small")
+    judge(chk, observe_import(chk, hdocs, "imp[namecollide]"), "import[namecollide]")
     if thorough:
         docs = gen_graphs(chk, ["A", "B", "C"], ["ref", "arr", "inline", "map", "oneOf", "allOf"], 3, req=(False,))
         judge(chk, observe_ir(chk, docs, "ir[A+B+C,3]"), "ir[A+B+C,<=3]")
